@@ -21,7 +21,7 @@ func (g *G) Bool() bool         { return g.R.Intn(2) == 0 }
 func (g *G) Int(lo, hi int) int { return lo + g.R.Intn(hi-lo+1) }
 
 func (g *G) U32() L {
-	switch g.R.Intn(6) {
+	switch g.R.Intn(8) {
 	case 0:
 		return L{0, 0, 0, 0}
 	case 1:
@@ -30,6 +30,8 @@ func (g *G) U32() L {
 		return L{1, 2, 3, 4}
 	case 3:
 		return L{128, 0, 0, g.R.Intn(256)}
+	case 4:
+		return L{g.Pick(127, 0, 255), 255, 255, g.Pick(255, 254)}
 	}
 	return L{g.R.Intn(256), g.R.Intn(256), g.R.Intn(256), g.R.Intn(256)}
 }
@@ -47,8 +49,8 @@ func (g *G) U16() int {
 }
 
 func (g *G) U8() int {
-	if g.R.Intn(4) == 0 {
-		return g.Pick(0, 1, 127, 128, 254, 255)
+	if g.R.Intn(3) == 0 {
+		return g.Pick(0, 1, 127, 127, 128, 254, 255)
 	}
 	return g.R.Intn(256)
 }
@@ -117,6 +119,12 @@ func (g *G) Len(max int) int {
 		}
 	case 2:
 		return 0
+	case 3:
+		// the neighbourhood of a power of two inside the range (fast paths for "short" lists end there)
+		p := 1 << uint(g.Int(3, 10))
+		if n := p + g.Int(-1, 1); n <= max {
+			return n
+		}
 	}
 	if max > 6 {
 		max = 6
@@ -210,10 +218,19 @@ func (g *G) Name4() L {
 }
 
 func (g *G) NACK() V {
-	n := g.Pick(1, 1, 2, 3, 4, 252, 253)
+	n := g.Pick(1, 1, 2, 3, 4, 252, 253, 1+g.Len(300))
 	ns := make(L, n)
 	for i := range ns {
 		ns[i] = V{"pid": g.U16(), "blp": g.U16()}
+		if i > 0 && g.R.Intn(3) == 0 {
+			// inside the window of the pair before, named by its bitmap or not, with or without a bitmap of its own
+			prev := ns[i-1].(V)
+			d := g.Int(1, 16)
+			if g.Bool() {
+				prev["blp"] = prev["blp"].(int) | 1<<uint(d-1)
+			}
+			ns[i] = V{"pid": (prev["pid"].(int) + d) % 65536, "blp": g.Pick(0, 0, g.U16())}
+		}
 	}
 	return V{"k": "NACK", "sender": g.U32(), "media": g.U32(), "nacks": ns}
 }
@@ -222,7 +239,7 @@ func (g *G) RRR() V { return V{"k": "RRR", "sender": g.U32(), "media": g.U32()} 
 func (g *G) PLI() V { return V{"k": "PLI", "sender": g.U32(), "media": g.U32()} }
 
 func (g *G) SLI() V {
-	n := g.Pick(1, 1, 2, 3, 252, 253)
+	n := g.Pick(1, 1, 2, 3, 252, 253, 1+g.Len(300))
 	es := make(L, n)
 	for i := range es {
 		es[i] = V{"first": g.Pick(0, 1, 4095, 4096, 8191, g.R.Intn(8192)), "number": g.Pick(0, 1, 1023, 1024, 8191, g.R.Intn(8192)), "pic": g.Pick(0, 1, 63, g.R.Intn(64))}
@@ -415,7 +432,34 @@ func (g *G) XRBlock() V {
 		if g.Bool() {
 			bt = "drle"
 		}
-		return V{"bt": bt, "t": g.R.Intn(16), "ssrc": g.U32(), "bs": g.U16(), "es": g.U16(), "chunks": cs}
+		bs, es := g.U16(), g.U16()
+		if n > 0 && g.Bool() {
+			// chunks that describe exactly [begin_seq, end_seq): runs, bit vectors of 15, maybe a terminating null
+			cover := 0
+			for i := range cs {
+				if g.Bool() {
+					r := g.Int(1, 40)
+					cs[i] = g.Pick(0, 1)<<14 | r
+					cover += r
+				} else {
+					cs[i] = 0x8000 | g.R.Intn(0x8000)
+					cover += 15
+				}
+			}
+			if g.Bool() {
+				cs[n-1] = 0
+				cover = 0
+				for _, c := range cs[:n-1] {
+					if c.(int)&0x8000 != 0 {
+						cover += 15
+					} else {
+						cover += c.(int) & 0x3FFF
+					}
+				}
+			}
+			es = (bs + cover) % 65536
+		}
+		return V{"bt": bt, "t": g.R.Intn(16), "ssrc": g.U32(), "bs": bs, "es": es, "chunks": cs}
 	case 2:
 		return V{"bt": "prt", "t": g.R.Intn(16), "ssrc": g.U32(), "bs": g.U16(), "es": g.U16(), "times": g.U32s(g.Pick(0, 1, 2, 3))}
 	case 3:
@@ -436,7 +480,15 @@ func (g *G) XRBlock() V {
 			"rtd": g.U16(), "esd": g.U16(), "sl": g.U8(), "nl": g.U8(), "rerl": g.U8(), "gmin": g.U8(), "rf": g.U8(), "erf": g.U8(),
 			"moslq": g.U8(), "moscq": g.U8(), "rxc": g.U8(), "jbn": g.U16(), "jbm": g.U16(), "jba": g.U16()}
 	}
-	return V{"bt": "unk", "type": g.Pick(0, 8, 9, 100, 255), "ts": g.U8(), "bytes": g.Bytes(4 * g.Pick(0, 1, 2, 3))}
+	ub := g.Bytes(4 * g.Pick(0, 1, 2, 3, g.Int(0, 12)))
+	if g.Bool() {
+		// low-entropy content: 16-bit words from a tiny pool
+		for i := 0; i+1 < len(ub); i += 2 {
+			w := g.Pick(0, 0, 1, 0x0101, 0xFFFF)
+			ub[i], ub[i+1] = w>>8, w&255
+		}
+	}
+	return V{"bt": "unk", "type": g.Pick(0, 8, 9, 100, 255, g.Int(8, 40), g.Int(8, 255)), "ts": g.U8(), "bytes": ub}
 }
 
 func (g *G) XR() V {
